@@ -5,21 +5,27 @@
    table and breaks this lemma; the model has to be looked at again then. *)
 From Coq Require Import String List.
 From Coq Require Import ZArith.
-From Verif Require Import Gen_RunNumberSites Gen_FileCounter.
+From Verif Require Import Gen_RunNumberSites Gen_FileCounter Gen_RemoteGlue.
 Import ListNotations.
 Open Scope string_scope.
 
-Definition expected_rn_writes : list (string * string * string * string * list string) := [
-  (* assigned on every START attempt that got past the hooks of negative weight *)
-  ("environment.go", "newEnvironment", "before_event", "value", ["e.Event == ""START_ACTIVITY"""]);
-  (* cleared when a run was stopped *)
-  ("environment.go", "newEnvironment", "after_event", "zero", ["e.Event == ""STOP_ACTIVITY"""]);
+(* In the conditions a parameter or receiver is written as its type (<fsm.Event>, <Environment>),
+   a local that is assigned once as the expression it was assigned, a named constant as its
+   value; a site in an unexported helper is listed where the helper is called; statements after
+   "if c { ...; return }" and else branches carry the negation of c; the lists are sorted. *)
+Definition expected_rn_writes : list (string * string * string * list string) := [
   (* cleared when tasks fail to start *)
-  ("transition_startactivity.go", "do", "", "zero", ["tasksStateErrors != nil"])
+  ("StartActivityTransition.do", "", "zero",
+   ["<Environment> != nil"; "((<-<Environment>.stateChangedCh).GetTasksStateChangedError()) != nil"]);
+  (* cleared when a run was stopped *)
+  ("newEnvironment", "after_event", "zero", ["<fsm.Event>.Event == ""STOP_ACTIVITY"""]);
+  (* assigned on every START attempt that got past the hooks of negative weight and drew a number *)
+  ("newEnvironment", "before_event", "value",
+   ["errHooks == nil"; "<fsm.Event>.Event == ""START_ACTIVITY"""; "(the.ConfSvc().NewRunNumber()#1) == nil"])
 ].
-Definition expected_rn_draws : list (string * string * string * list string) := [
+Definition expected_rn_draws : list (string * string * list string) := [
   (* a fresh number is drawn on every such attempt, under no other condition *)
-  ("environment.go", "newEnvironment", "before_event", ["e.Event == ""START_ACTIVITY"""])
+  ("newEnvironment", "before_event", ["errHooks == nil"; "<fsm.Event>.Event == ""START_ACTIVITY"""])
 ].
 
 Lemma rn_sites_as_modelled :
@@ -37,4 +43,12 @@ Definition expected_fc_parse : string * Z * Z := ("the bytes read", 10%Z, 32%Z).
 
 Lemma file_counter_as_modelled :
   gen_fc_ops = expected_fc_ops /\ gen_fc_parse = expected_fc_parse.
+Proof. split; reflexivity. Qed.
+
+(* The glue between the core and the counter (table gen/Gen_RemoteGlue.v, a path analysis of
+   RemoteService.NewRunNumber and RpcServer.NewRunNumber regenerated from the source on every
+   run): every way out of either function returns the number of a successful inner NewRunNumber
+   call with a nil error, or a non-nil error - which is what [remote_client] of the model says. *)
+Lemma remote_glue_as_modelled :
+  gen_glue_client_faithful = true /\ gen_glue_server_faithful = true.
 Proof. split; reflexivity. Qed.
